@@ -21,7 +21,7 @@ def hang_fixture():
         rc = runner.main_check("ZZ_HANG", ["--no-evidence", "--jobs", "3", "--tier", "quick"])
     out = buf.getvalue()
     m = re.search(r"VIOLATION property=ZZ_HANG replay=(\S+)", out)
-    ok = rc == 1 and "clause=ZZ_HANG.hang run_index=3 " in out and m is not None
+    ok = rc == 1 and "clause=ZZ_HANG.noreturn run_index=3 " in out and m is not None
     if ok:
         buf2 = io.StringIO()
         with contextlib.redirect_stdout(buf2):
